@@ -89,3 +89,35 @@ func VerifC19Empty() {
 	nd.Assert(o1 == o2, "empty-delimiter-selects-default")
 	nd.Reach("C19.empty")
 }
+
+// VerifC19TwoEngines: engines with different delimiters live side by side in one process: what one
+// has scanned (raw and comment blocks included) never changes how the other scans. Each template is
+// rendered by a default engine and, respelled, by a custom one, in both orders, twice.
+func VerifC19TwoEngines() {
+	q := c19Quads[1+nd.Choice(len(c19Quads)-1)]
+	t := []string{
+		"a{% raw %}x {% if {% endraw %}b{% comment %}{% assign {% endcomment %}c",
+		"{% raw %}{{ y }}{% endraw %}|{% comment %}{{ z {% endcomment %}|{{ x }}",
+		"p{%- raw -%} {% else %} {%- endraw -%}q",
+	}[nd.Choice(3)]
+	b := Bindings{"x": nd.IntIn(0, 9)}
+	def, cus := NewEngine(), NewEngine().Delims(q[0], q[1], q[2], q[3])
+	var o1, o2 string
+	var e1, e2 SourceError
+	for round := 0; round < 2; round++ {
+		if nd.Choice(2) == 0 {
+			o1, e1 = def.ParseAndRenderString(t, b)
+			o2, e2 = cus.ParseAndRenderString(c19Respell(t, q), b)
+		} else {
+			o2, e2 = cus.ParseAndRenderString(c19Respell(t, q), b)
+			o1, e1 = def.ParseAndRenderString(t, b)
+		}
+		// raw bodies spell delimiters: translate the custom spelling in the output back
+		back := o2
+		for i, d := range []string{"{{", "}}", "{%", "%}"} {
+			back = strings.ReplaceAll(back, q[i], d)
+		}
+		nd.Assert(e1 == nil && e2 == nil && o1 == back, "engines-do-not-interfere")
+	}
+	nd.Reach("C19.twoengines")
+}
